@@ -176,10 +176,32 @@ func move(model []handle, from, to int) []handle {
 	return out
 }
 
+// checkRemoved: a handle that was removed keeps its identity and Value, has no neighbours, and is
+// never handed out again as a node of the list - whatever happens to the list afterwards.
+func checkRemoved(removed []handle, model []handle, what string) error {
+	live := map[*xlist.Node[int]]bool{}
+	for _, h := range model {
+		live[h.n] = true
+	}
+	for _, h := range removed {
+		if h.n.Value != h.val {
+			return vk.Violf("value-touched", "%s: a handle removed earlier now has Value %d, it was created with %d", what, h.n.Value, h.val)
+		}
+		if h.n.Prev() != nil || h.n.Next() != nil {
+			return vk.Violf("removed-neighbour", "%s: a handle removed earlier (value %d) has a neighbour again", what, h.val)
+		}
+		if live[h.n] {
+			return vk.Violf("handle-reused", "%s: the handle of a removed node (value %d) was handed out again as a new node", what, h.val)
+		}
+	}
+	return nil
+}
+
 func runPlan(p Plan) (vk.Outcome, error) {
 	var out vk.Outcome
 	var l xlist.List[int]
 	var model []handle
+	var removedHandles []handle
 	next := 0
 	removed, cleared, nontrivial := false, false, false
 	newVal := func() int { next++; return next }
@@ -233,6 +255,7 @@ func runPlan(p Plan) (vk.Outcome, error) {
 			h := model[m]
 			l.Remove(h.n)
 			model = append(model[:m:m], model[m+1:]...)
+			removedHandles = append(removedHandles, h)
 			if h.n.Prev() != nil || h.n.Next() != nil {
 				return out, vk.Violf("removed-neighbour", "%s: removed node still has a neighbour", what)
 			}
@@ -249,6 +272,7 @@ func runPlan(p Plan) (vk.Outcome, error) {
 				h := model[m]
 				l.Remove(h.n)
 				model = append(model[:m:m], model[m+1:]...)
+				removedHandles = append(removedHandles, h)
 				if h.n.Prev() != nil || h.n.Next() != nil {
 					return out, vk.Violf("removed-neighbour", "%s: removed node still has a neighbour", what)
 				}
@@ -318,6 +342,9 @@ func runPlan(p Plan) (vk.Outcome, error) {
 			out.Label("regrown-after-clear")
 		}
 		if err := check(&l, model, what); err != nil {
+			return out, err
+		}
+		if err := checkRemoved(removedHandles, model, what); err != nil {
 			return out, err
 		}
 	}
